@@ -77,7 +77,8 @@ def gen_item(seed, tier):
     knobs['path_star'] = True
     line_tier = rng.random() < (0.25 if tier == 'thorough' else 0.08)
     return {'target': target, 'segs': segs, 'style': style, 'val': val, 'missing': missing,
-            'api': api, 'knobs': knobs, 'line_tier': line_tier, 's_rooted_last': rng.random() < 0.5}
+            'api': api, 'knobs': knobs, 'line_tier': line_tier, 's_rooted_last': rng.random() < 0.5,
+            'reused': rng.random() < 0.25}
 
 
 def _factory_for_model(missing):
@@ -173,6 +174,21 @@ class Run:
             else:
                 sp = (S(x=T), G.Assign(sp_path, val, missing=missing), S['x'])
             th = lambda: G.glom(tgt, sp)
+        if item.get('reused') and api != 'assign':
+            # the SAME Assign object has already been evaluated once, on another target (a copy built
+            # from the same recipe): nothing of that evaluation may show in this one
+            k = self.k
+            saved = (k.faults, k.line_crash, list(k.log), dict(k.counts), k.ln, list(k.fired))
+            k.faults, k.line_crash = {}, None
+            try:
+                decoy = build.Builder(G, simrun.make_kernel(G, seed=0)).value(item['target'])
+                k.run_single(lambda: G.glom(decoy, sp))
+            finally:
+                k.faults, k.line_crash = saved[0], saved[1]
+                k.log[:] = saved[2]
+                k.counts = saved[3]
+                k.ln = saved[4]
+                k.fired[:] = saved[5]
         self.res = self.k.run_single(th)
         self.after = canon.snapshot(self.target)
         self.after_ids = canon.snapshot_by_id(self.target)
